@@ -620,15 +620,34 @@ def v1pre_case(content):
     if re.search(r"[^\S \t\n]", content):
         return {"skip": "other whitespace characters"}
     raw = content.split("\n")
+    # which physical lines start a statement and which are appended by the join: the same walk as
+    # get_numbered_lines (comment / blank lines are skipped BEFORE the continuation marker is looked
+    # at; a line that starts a statement with an unterminated double quote opens a multi-line string)
     has_cont = False
-    consumed = False          # this physical line is appended to the previous one by the join
-    for l in raw:
-        s = l.strip()
-        if '"""' in s or (not consumed and s.startswith('"') and not s.endswith('"')):
+    if any('"""' in l for l in raw):
+        return {"skip": "multi-line construct"}
+    k, n = 0, len(raw)
+    while k < n:
+        s = raw[k].strip()
+        if s.startswith('"') and not s.endswith('"'):
             return {"skip": "multi-line construct"}
-        consumed = s.endswith("\\") or s.endswith(" or") or (consumed and s == "or")
-        if consumed:
+        if s == "" or s[0] == "#":
+            k += 1
+            continue
+        text = s
+        while (k < n - 1 and text[-1] == "\\") or text.endswith(" or"):
+            k += 1
             has_cont = True
+            if k >= n:
+                break                      # IndexError in the real code
+            if text[-1] == "\\":
+                text = text[:-1]
+            if not text:
+                break                      # IndexError in the real code
+            if text[-1] != " ":
+                text += " "
+            text += raw[k].strip()
+        k += 1
     if has_cont and any("#" in re.sub(r'"[^"]*"', "", l) and not l.strip().startswith("#") for l in raw):
         return {"skip": "end-of-line comment in a text with continuations"}     # word_split is not modelled
     try:
@@ -1304,7 +1323,8 @@ def run(tier, seed, replay=None):
                 if ed != c:
                     lex_extra.append({"content": ed, "origin": o + "+" + kind_e})
     lex_cases += lex_extra
-    v1_cases = [{"content": c, "origin": o} for o, c in progs["1.0"]]
+    v1_cases = [{"content": rc["content"], "origin": "corpus"} for rc in replay_cases if rc.get("kind") == "v1pre"]
+    v1_cases += [{"content": c, "origin": o} for o, c in progs["1.0"]]
     v1_extra = []
     for o, c in progs["1.0"][:: max(1, len(progs["1.0"]) // (80 if quick else 500))]:
         for kind_e, k in (("blank", 0), ("trailing_ws", 0), ("trailing_tab", 0), ("scale", 3)):
